@@ -1330,7 +1330,15 @@ def crash_scenarios(ctx: Ctx) -> List[dict]:
         for n in range(ctx.n(0, 3)):
             i0, ops = mk_ops(rng, rng.randrange(0, 4), rng.randrange(1, 3))
             out.append({"name": f"random-{n}", "initial": i0, "ops": ops, "prev_on_disk": True})
+    if _lite(ctx):  # bounded repeat (interpreter variant): every 3rd kill point, fewer fault pairs
+        keep = [s for s in out if not s.get("faults")] + [s for s in out if s.get("faults")][:2]
+        out = [dict(s, stride=max(int(s.get("stride", 1)), 3), offset=s.get("offset", rng.randrange(1, 4))) for s in keep]
     return out
+
+
+def _lite(ctx: Ctx) -> bool:
+    """A bounded repeat of the run (harness/check.py: interpreter variants): enumerations are thinned out."""
+    return getattr(ctx, "budget_scale", 1.0) < 1.0
 
 
 # --------------------------------------------------------------------------- stream: fault
@@ -1416,6 +1424,8 @@ def fault_stream(ctx: Ctx, model_cases: list):
         i0, ops = mk_ops(rng, 3, 3)
         ops[0] = {"op": "unpair", "id": i0[2]["id"]}
         scns.append({"name": "shrinking", "initial": i0, "ops": ops, "prev_on_disk": True})
+    if _lite(ctx):
+        scns = scns[:1]
     for scn in scns:
         counts = fault_case(ctx, scn, [[]], model_cases)  # clean save: how often each call happens
         per_point = {p: counts.get((0, p), 0) for p in POINTS}
@@ -1662,7 +1672,7 @@ def schedule_stream(ctx: Ctx, model_cases: list):
     blocked_p = set()
     sampled = False
     for p in pts:
-        for q in [None] + pts[:-1]:
+        for q in [None] + (pts[:-1] if not _lite(ctx) else [["replace", 1]]):
             for reverse in (False, True):
                 if q is None and reverse:
                     continue
@@ -1749,6 +1759,8 @@ def midread_stream(ctx: Ctx, model_cases: list):
         opA = first if name != "unpair-last-admin-sweeps-all" else dict(first, perm=0)
         for pt in read_points:
             if ctx.quick and name != "pair-new" and pt[0] in ("read:mac", "read:private_key", "read:public_key", "write"):
+                continue
+            if _lite(ctx) and (name != "pair-new" or pt[0] in ("read:mac", "read:private_key", "read:public_key")):
                 continue
             cmds = [["mut", opA], ["run", 0, pt], ["mut", op2], ["run", 0, None], ["run", 1, None], ["runL"], ["run", 1, None]]
             res, rlog = schedule_case(ctx, scn, cmds, model_cases, timeout=0.1)
